@@ -111,9 +111,11 @@ def generate(ctx):
             steps.append({"drive": rng.choice(["random", "random", "random", "zero", "huge+", "huge-", "negative",
                                                "near+", "near-", "near+", "strong"]),
                           "lock": rng.random() < 0.8, "adapt": rng.choice([None, None, True, False]),
-                          "train": rng.random() < 0.5, "clear": rng.random() < 0.02})
+                          "train": rng.random() < 0.5, "clear": rng.random() < 0.02, "keep": rng.random() < 0.6})
         yield {"part": "trajectory", "cls": cls, "dt": dt, "params": _params(rng, cls, dt),
                "dtype": rng.choice(["float64", "float64", "float32"]), "B": rng.randint(1, 4),
+               # documented: how the per-sample adaptation updates are combined (default mean)
+               "batch_reduction": rng.choice([None, None, "sum", "amax", "mean"]),
                "shape": list(rng.choice([(3,), (2, 2), (1,), (2, 1, 2), (5,)])), "seed": rng.randrange(1 << 30),
                "steps": steps}
     # exact ties v == threshold on representable numbers (quadratic neurons, fresh state: dynamics term vanishes)
@@ -127,6 +129,8 @@ def generate(ctx):
 def _build(desc):
     cls = getattr(neural, desc["cls"])
     kw = dict(desc["params"])
+    if desc.get("batch_reduction") and (desc["cls"] in THRESH_ADAPT or desc["cls"] in CURR_ADAPT):
+        kw["batch_reduction"] = {"sum": torch.sum, "amax": torch.amax, "mean": torch.mean}[desc["batch_reduction"]]
     n = cls(tuple(desc["shape"]), desc["dt"], batch_size=desc["B"], **kw)
     if desc["dtype"] == "float64":
         n.to(torch.float64)
@@ -204,9 +208,20 @@ def run_case(ctx, desc):
         rdesc = {**desc, "steps": desc["steps"][: t + 1]}
         if st.get("clear"):
             # back to the resting state in the middle of a trajectory: no refractory window is pending any more
-            n.clear()
+            a_before = None if not adaptive else _np(_adapt_of(n, cls))
+            keep = st.get("keep", True)
+            if adaptive and not keep:
+                n.clear(keep_adaptations=False)
+            else:
+                n.clear()
             last_spike = np.full(full, -10 ** 9, dtype=np.int64)
             ctx.count("mid_trajectory_clears")
+            if adaptive:
+                a_after = _np(_adapt_of(n, cls))
+                want = a_before if keep else np.zeros_like(a_before)
+                if not np.array_equal(a_after, want, equal_nan=True):
+                    return ctx.violation(f"{cls}.clear.adaptation_{'not_kept' if keep else 'not_reset'}",
+                                         f"clear(keep_adaptations={keep}) left the learned adaptation in the wrong state", rdesc)
             if bool((n.refrac != 0).any()) or not bool(torch.isfinite(n.voltage).all()):
                 return ctx.violation(f"{cls}.clear.not_resting", "after clear() a refractory time is pending or the voltage is not finite", rdesc)
         n.train(st["train"])
@@ -339,7 +354,8 @@ def run_case(ctx, desc):
                     vc = np.asarray(p["voltage_coupling"], dtype=np.float64)
                     moved = a0b + dt / tc * (vc * (v1 - p["rest_v"])[..., None] - a0b)
                 frozen = (r1 > 0)[..., None] & st["lock"]
-                exp_a = (np.where(frozen, a0b, moved) + incr * sp[..., None]).mean(0)
+                per_sample = np.where(frozen, a0b, moved) + incr * sp[..., None]
+                exp_a = {"sum": per_sample.sum(0), "amax": per_sample.max(0)}.get(desc.get("batch_reduction"), per_sample.mean(0))
                 ctx.count("adaptation_law_checks", int(exp_a.size))
                 # hyper-parameters are stored as float32 buffers (1e-7 relative) before the float64 cast
                 if not np.allclose(a1, exp_a, rtol=1e-5, atol=1e-6 * max(1.0, float(np.abs(exp_a).max()))):
